@@ -401,24 +401,57 @@ def consumed(ctx):
                 oks = [x for x in ok_return_blocks(b) if x in b.reachable_from(r.entry)]
                 ok = te is not None and te[1] is not None and all_paths_err(b, te[1]) and bool(oks) and all(must_pass(b, r.entry, [x], [la[0][0]]) for x in oks)
             ctx.ob('CONSUMED', v, ok, short_loc(b.span), 'every Ok exit of the %s arm passes into_left_after_take()? : %s' % (v, ok))
-    if ctx.has_feature('zstandard'):
-        RD = P + 'reader::decompression::DecompressionReaderForBufReader'
-        ok = False
-        for r in enum_regions(b, RD):
-            if 'Zstandard' in r.variants:
-                rd = [(bb, b.term(bb)) for bb in sorted(r.blocks) if b.term(bb)['k'] == 'call' and (b.term(bb).get('callee') or '') == 'std::io::Read::read']
-                if len(rd) == 1:
-                    # `read != 0` => Err
-                    for sbb in sorted(r.blocks):
-                        if b.term(sbb)['k'] == 'switch':
-                            cond = switch_condition(b, b.switch_info(sbb))
-                            if cond[0] == 'cmp' and cond[1] in ('Ne', 'Eq'):
-                                lo, ro = origin(b, cond[2]), origin(b, cond[3])
-                                if any(c is rd[0][1] for c in lo.calls) and ro.consts() == {0}:
-                                    t0 = [x['bb'] for x in b.term(sbb)['targets'] if x['v'] == 0][0]
-                                    ne_edge = b.term(sbb)['otherwise'] if cond[1] == 'Ne' else t0
-                                    ok = all_paths_err(b, ne_edge)
-        ctx.ob('CONSUMED', 'zstd-drive-to-end', ok, short_loc(b.span), 'zstd decoder is driven to its end with a 1-byte read; leftover data => Err: %s' % ok)
+    # Every streaming decoder must be driven to its end before the leftover check: a decoder that was
+    # never (or not fully) pulled leaves compressed bytes in the block (zero-byte blocks under deflate/
+    # bzip2/xz: F10; zstd's end-of-frame: zstd-rs#255).  Accepted shapes: one 1-byte `Read::read`
+    # whose non-zero result goes to Err on every path, which either dominates the per-decoder
+    # `into_inner` switch (covers all decoders) or sits inside that decoder's own arm.
+    RD = P + 'reader::decompression::DecompressionReaderForBufReader'
+    STREAMING = [(v, ft) for v, ft in (('Deflate', 'deflate'), ('Bzip2', 'bzip2'), ('Xz', 'xz'), ('Zstandard', 'zstandard')) if ctx.has_feature(ft)]
+
+    def drive_reads(blocks):
+        out = []
+        for bb in sorted(blocks):
+            t = b.term(bb)
+            if t['k'] != 'call' or (t.get('callee') or '') != 'std::io::Read::read':
+                continue
+            te = try_edges(b, bb)
+            if te is None or te[1] is None or not all_paths_err(b, te[1]):
+                continue
+            good = False
+            for sbb in b.reachable_from(bb):
+                if b.term(sbb)['k'] != 'switch' or not b.dominates(bb, sbb):
+                    continue
+                cond = switch_condition(b, b.switch_info(sbb))
+                if cond[0] == 'cmp' and cond[1] in ('Ne', 'Eq'):
+                    lo, ro = origin(b, cond[2]), origin(b, cond[3])
+                    if any(c is t for c in lo.calls) and ro.consts() == {0}:
+                        t0 = [x['bb'] for x in b.term(sbb)['targets'] if x['v'] == 0][0]
+                        ne_edge = b.term(sbb)['otherwise'] if cond[1] == 'Ne' else t0
+                        eq_edge = t0 if cond[1] == 'Ne' else b.term(sbb)['otherwise']
+                        if all_paths_err(b, ne_edge) and not all_paths_err(b, eq_edge):
+                            good = True
+            if good:
+                out.append(bb)
+        return out
+
+    if STREAMING:
+        rd_regions = enum_regions(b, RD)
+        ds_buf = [r for r in enum_regions(b, DS) if 'BufReader' in r.variants]
+        arm_blocks = set().union(*[r.blocks for r in ds_buf]) if ds_buf else set()
+        in_variant = set().union(*[r.blocks for r in rd_regions]) if rd_regions else set()
+        common = [bb for bb in drive_reads(arm_blocks - in_variant)]
+        for v, ft in STREAMING:
+            regs = [r for r in rd_regions if v in r.variants]
+            ok = bool(regs)
+            for r in regs:
+                own = drive_reads(r.blocks)
+                dom = [bb for bb in common if b.dominates(bb, r.entry)]
+                if not own and not dom:
+                    ok = False
+            ctx.ob('CONSUMED', 'drive-to-end/' + v, ok, short_loc(b.span),
+                   '%s decoder is driven to its end with a 1-byte read (non-zero => Err, error => Err) before into_inner/finish: %s' % (v, ok))
+        ctx.floor('CONSUMED', 'drive-to-end', len(STREAMING), 1)
 
 
 def reset(ctx, enc):
